@@ -15,7 +15,7 @@ RULE = ("dimension lists as C02 (0..4 dims, one/two/three-axis, any commons, inf
         "weights none / scalar / array / (values, validity), zeros included; both missing-value policies; dense arrays "
         "handed to xcube as int64 and as the unsigned dtype to_array produces. Dyadic stream (k/8 values): every float64 "
         "operation of the real code is exact, compared EXACTLY with the direct Fraction group-by and with the Lean model; "
-        "wide stream: 1-2 dims whose extent / product of extents straddles 2^8 (thorough: 2^16); general stream (arbitrary doubles): tolerance 1e-9 x grand total, missing cells exactly; cells of exactly 2^16 valid or missing rows (thorough: +-1, 2^17 .. 2^18); every fourth case one long-lived ccube object serves all aggregates while its dimensions are re-normalised in place between them. Non-trivial = >=1 dim and "
+        "wide stream: 1-2 dims whose extent / product of extents straddles 2^8 (thorough: 2^16); general stream (arbitrary doubles): tolerance 1e-9 x grand total, missing cells exactly; cells of exactly 2^16 valid or missing rows (thorough: +-1, 2^17 .. 2^18); every third case hands the same fact / weights objects to every call; every fourth case one long-lived ccube object serves all aggregates while its dimensions are re-normalised in place between them. Non-trivial = >=1 dim and "
         ">=1 row; distinct by (dims, fact, weights, policy, aggregate)")
 ASSUMPTIONS = ["float64 sums/products of the dyadic stream are exact (bounded magnitude, N <= 40)",
                "float rounding on the general stream is within 1e-9 of the grand total"]
@@ -219,6 +219,9 @@ def run(ctx):
     for it in range(ctx.n(60)):
         case = A.gen_case(ctx.rng, multi_axis=ctx.rng.random() < 0.35)
         case["live"] = it % 4 == 1
+        if it % 3 == 2:
+            case["share_args"] = True      # one fact / weights object handed to every call of the case, both cube types
+            ctx.hit("shared_argument_objects")
         check(ctx, case, reqs, pend, shape_mode="explicit" if case["live"] else ctx.rng.choice(["inferred", "explicit"]))
     for _ in range(ctx.n(15)):
         case = A.gen_case(ctx.rng, multi_axis=False, general=True)
